@@ -31,6 +31,7 @@ type ConcOp struct {
 type LinCase struct {
 	Progs [][]ConcOp `json:"progs"`
 	HTTP  bool       `json:"http"`
+	Setup int        `json:"setup"` // the first Setup programs run to completion, one after the other, before the others start
 }
 
 type linOut struct {
@@ -77,6 +78,15 @@ var linModel = porcupine.Model{
 			v, b, c := m.Get(o.Name)
 			if c != model.OK {
 				return r.Class == c, m
+			}
+			return r.Class == model.OK && r.Ver == v && r.Val == b, m
+		case "cond":
+			v, b, c := m.Get(o.Name)
+			if c != model.OK {
+				return r.Class == c, m
+			}
+			if o.Ver != 0 && o.Ver == v {
+				return r.Class == model.NotChanged, m
 			}
 			return r.Class == model.OK && r.Ver == v && r.Val == b, m
 		case "getver":
@@ -129,7 +139,22 @@ func runC14(t *testing.T, c LinCase) (*h.Violation, h.Info) {
 	var hist []porcupine.Operation
 	var wg sync.WaitGroup
 	start := make(chan struct{})
+	runProg := func(ci int, prog []ConcOp, tgt dbx.Target) {
+		for _, o := range prog {
+			op := dbx.Op{Kind: o.Kind, Name: o.Name, Val: []byte(o.Val)}
+			call := clock.Add(1)
+			r := tgt.Do(su, op, o.Ver)
+			ret := clock.Add(1)
+			hist = append(hist, porcupine.Operation{ClientId: ci, Input: o, Call: call, Output: linOut{Class: r.Class, Ver: r.Ver, Val: string(r.Val)}, Return: ret})
+		}
+	}
+	for ci := 0; ci < c.Setup && ci < len(c.Progs); ci++ {
+		runProg(ci, c.Progs[ci], mk())
+	}
 	for ci, prog := range c.Progs {
+		if ci < c.Setup {
+			continue
+		}
 		wg.Add(1)
 		tgt := mk()
 		go func() {
@@ -202,7 +227,7 @@ func genLinCase(rt *rapid.T) LinCase {
 	for i := 0; i < nc; i++ {
 		c.Progs = append(c.Progs, rapid.SliceOfN(rapid.Custom(func(rt *rapid.T) ConcOp {
 			return ConcOp{
-				Kind:  rapid.SampledFrom([]string{"put", "put", "put", "activate", "delver", "del", "get", "getver", "info", "list"}).Draw(rt, "kind"),
+				Kind:  rapid.SampledFrom([]string{"put", "put", "put", "activate", "delver", "del", "get", "getver", "cond", "info", "list"}).Draw(rt, "kind"),
 				Name:  rapid.SampledFrom(names).Draw(rt, "name"),
 				Val:   rapid.SampledFrom([]string{"", "x", "y"}).Draw(rt, "val"),
 				Ver:   uint32(rapid.IntRange(1, 4).Draw(rt, "ver")),
@@ -221,6 +246,36 @@ var c14 = &h.Campaign[LinCase]{
 	Run:   runC14,
 }
 
-func init() { c14.Register() }
+// C09 (concurrent part): "not-modified iff the active version is V at that moment" under
+// concurrent activations - the same runner and decision procedure, a generator biased to
+// conditional gets and activations of one secret that starts with several versions.
+var c09conc = &h.Campaign[LinCase]{
+	Prop: "C09", Sub: "concurrent",
+	Rule: "rapid: 2-4 clients x 2-6 calls, mostly conditional gets (V in 1..4) and activations (also puts, get) on one secret that first receives three versions; each recorded history is decided by porcupine against the map model (a conditional get may answer not-modified only if some linearization point has active == V, and may never return version V itself); under the race detector; non-trivial = overlapping calls on the name with at least one mutation; distinct by program",
+	Quick: 600, Thorough: 80000,
+	Gen: func(rt *rapid.T) LinCase {
+		c := LinCase{HTTP: rapid.IntRange(0, 3).Draw(rt, "http") == 0}
+		c.Progs = append(c.Progs, []ConcOp{{Kind: "put", Name: "a", Val: "x"}, {Kind: "put", Name: "a", Val: "y"}, {Kind: "put", Name: "a", Val: "z"}})
+		nc := rapid.IntRange(2, 4).Draw(rt, "clients")
+		for i := 0; i < nc; i++ {
+			c.Progs = append(c.Progs, rapid.SliceOfN(rapid.Custom(func(rt *rapid.T) ConcOp {
+				return ConcOp{
+					Kind:  rapid.SampledFrom([]string{"cond", "cond", "cond", "activate", "activate", "put", "get"}).Draw(rt, "kind"),
+					Name:  "a",
+					Val:   rapid.SampledFrom([]string{"x", "w"}).Draw(rt, "val"),
+					Ver:   uint32(rapid.IntRange(1, 4).Draw(rt, "ver")),
+					Yield: rapid.IntRange(0, 3).Draw(rt, "yield"),
+				}
+			}), 2, 6).Draw(rt, "prog"))
+		}
+		c.Setup = 1
+		return c
+	},
+	Run: runC14,
+}
+
+func init() { c14.Register(); c09conc.Register() }
+
+func TestC09RaceConcurrent(t *testing.T) { c09conc.Check(t) }
 
 func TestC14RaceLinearizable(t *testing.T) { c14.Check(t) }
